@@ -3,6 +3,7 @@
 package verifharness
 
 import (
+	"os"
 	"fmt"
 	"math/rand"
 	"reflect"
@@ -101,7 +102,7 @@ type hop struct {
 
 func (o hop) Sexp() string {
 	switch o.kind {
-	case "get", "elem":
+	case "get", "elem", "rootwrite":
 		return fmt.Sprintf("(%s %d %s)", o.kind, o.h, hx(o.i))
 	case "uvalue", "copy", "pop", "htr", "ser", "blen", "len", "sel", "snap", "count", "iter", "next":
 		return fmt.Sprintf("(%s %d)", o.kind, o.h)
@@ -164,6 +165,26 @@ func (s *hstate) exec(o hop) string {
 			return "ERR"
 		}
 		switch o.kind {
+		case "rootwrite":
+			// the in-place setters of a Root view: the view changes, nothing else may
+			rv, ok := vw.(*view.RootView)
+			if !ok {
+				return "ERR"
+			}
+			b := byte(o.i%250) + 1
+			var nr tree.Root
+			for k := range nr {
+				nr[k] = b
+			}
+			if o.i%2 == 0 {
+				txt, _ := nr.MarshalText()
+				if err := rv.UnmarshalText(txt); err != nil {
+					return "ERR"
+				}
+			} else if err := rv.SetBacking(&nr); err != nil {
+				return "ERR"
+			}
+			return "OK"
 		case "iter":
 			var it elemIter
 			switch x := vw.(type) {
@@ -294,7 +315,13 @@ func (s *hstate) exec(o hop) string {
 				}
 				return errObs(x.Append(b))
 			case *view.ComplexListView:
-				return errObs(x.Append(src))
+				if e := x.Append(src); e != nil {
+					if os.Getenv("VERIF_DEBUG") != "" {
+						println("APPEND-ERR", e.Error())
+					}
+					return "ERR"
+				}
+				return "OK"
 			}
 			return "ERR"
 		case "pop":
